@@ -287,7 +287,7 @@ class LeafNum(_Leaf):
         val = SObj("Num", {"__str__": NativeFn("__str__", lambda I2, a, k: num)})
         cond = SObj(idx.lookup("sigma.conditions:ConditionFieldEqualsValueExpression"), {"field": fld, "value": val}, lazy=True)
         eq = I.fresh("eq_token", "str")
-        return {"self": SObj(idx.lookup(f"{CB}:TextQueryBackend"), {"eq_token": eq}, lazy=True), "args": [cond, I.fresh("state", "opaque", "State")], "fld": fld, "eq": eq, "val": val}
+        return {"self": SObj(idx.lookup(f"{CB}:TextQueryBackend"), {"eq_token": eq}, lazy=True), "args": [cond, I.fresh("state", "opaque", "State")], "fld": fld, "eq": eq, "val": val, "num": num}
 
     def post(self, I, inp, r):
         strof = z3.Function("strof", z3.IntSort(), z3.StringSort())
@@ -295,7 +295,7 @@ class LeafNum(_Leaf):
         I.ctx.require(ok, "a string is returned")
         if ok:
             t = mk_str(r)
-            I.ctx.require(z3.And(z3.PrefixOf(z3.Concat(ESC(inp["fld"].t), inp["eq"].t), t), z3.Length(t) >= z3.Length(ESC(inp["fld"].t)) + z3.Length(inp["eq"].t)), "escaped field, then the equality token, then the value text")
+            I.ctx.require(t == z3.Concat(ESC(inp["fld"].t), inp["eq"].t, inp["num"].t), "escaped field, then the equality token, then the number's text")
 
 
 @register
